@@ -18,10 +18,12 @@ import (
 	"testing"
 	"time"
 
+	"github.com/plgd-dev/go-coap/v3/message"
 	"github.com/plgd-dev/go-coap/v3/message/codes"
 	"github.com/plgd-dev/go-coap/v3/message/pool"
 	"github.com/plgd-dev/go-coap/v3/net/responsewriter"
 	tcpclient "github.com/plgd-dev/go-coap/v3/tcp/client"
+	tcpcoder "github.com/plgd-dev/go-coap/v3/tcp/coder"
 
 	"verifharness/gen"
 	"verifharness/ref"
@@ -384,6 +386,18 @@ func TestRun(t *testing.T) {
 					}
 				}
 				e := ref.EncodeTCP(m)
+				if j%2 == 0 {
+					// every second frame is written by the library's own stream encoder - the other half of the framing: what
+					// a go-coap sender puts on the wire must be cut back into the same messages by a go-coap receiver
+					if le, ok := libEncodeTCP(m); ok {
+						libEncoded.Add(1)
+						if pm, pn, perr := ref.ParseTCP(le); perr != nil || pn != len(le) || digest(pm) != digest(m) {
+							rec.Violation("C07/sender/frame-is-not-its-message", fmt.Sprintf("the stream encoder wrote %d bytes for a message with %d bytes of options+payload (reference frame: %d bytes); read back by the reference parser: consumed %d, error %v - a receiver cuts the stream in the wrong place", len(le), gen.BodyLen(m), len(e), pn, perr), map[string]any{"code": m.Code, "token_len": len(m.Token), "options_and_payload_bytes": gen.BodyLen(m), "frame_head": fmt.Sprintf("%x", le[:min(len(le), 12)])})
+						} else {
+							e = le
+						}
+					}
+				}
 				if len(e) > maxFrame {
 					maxFrame = len(e)
 				}
@@ -562,11 +576,32 @@ func TestRun(t *testing.T) {
 		}()
 	}
 	wg.Wait()
+	rec.Count("frames_written_by_the_library_stream_encoder", libEncoded.Load())
 	rec.Assume("the sent sequence is what the reference stream parser yields for the fed bytes (documented leniencies applied), handler log and signal log are compared separately because signals are handled inline while other messages go through the receive queue")
 	rec.Assume("bounded progress: all bytes were consumed by the connection and a 20 s watchdog expired before a delivery is called missing")
 }
 
 // frameHeader builds the header of a frame with the given body length (options+payload).
+var libEncoded atomic.Int64
+
+// libEncodeTCP encodes m with tcp/coder.DefaultCoder.
+func libEncodeTCP(m ref.Msg) ([]byte, bool) {
+	lm := message.Message{Code: codes.Code(m.Code), Token: m.Token, Payload: m.Payload}
+	for _, o := range m.Opts {
+		lm.Options = append(lm.Options, message.Option{ID: message.OptionID(o.ID), Value: o.Val})
+	}
+	n, err := tcpcoder.DefaultCoder.Size(lm)
+	if err != nil {
+		return nil, false
+	}
+	buf := make([]byte, n)
+	k, err := tcpcoder.DefaultCoder.Encode(lm, buf)
+	if err != nil {
+		return nil, false
+	}
+	return buf[:k], true
+}
+
 func frameHeader(body int, code byte, tok []byte) []byte {
 	tkl := byte(len(tok))
 	var out []byte
